@@ -349,6 +349,9 @@ def check_ref_property(prop: str, tier: str, seed: int) -> int:
             stage_optable(out, ["binary", "einsum", "sequence", "matmul"])
         if prop == "C13":
             stage_memguard_failures(out)
+        if prop == "C09":
+            # a backward() asked again after a refused one, for every operation that keeps state between passes
+            stage_retry(out)
         if prop == "C04":
             # in-place updates through view chains on C- and Fortran-ordered bases, and `.shape` assigned on a view of a
             # view followed by another update in the family: the cells of the operation table, every handle's values compared
@@ -1036,6 +1039,40 @@ def check_C03(tier: str, seed: int) -> int:
     cov["trusted_base"] = ["TLC 1.8 / SANY", "CommunityModules Json", "harness/promote.py", "NumPy as value/shape oracle"]
     out.assumptions += ["dtype lattice {bool, int8, int64, float16/32/64} and Python scalars; order=, casting=, subok= not covered"]
     return out.finish()
+
+
+def stage_retry(out: core.Outcome):
+    """Cells of spec/tables/Retry.tla (C09): a backward() asked again after a refused one, per operation."""
+    from . import retry
+    from .driver import reset_global_state
+
+    rc, o, wall = tlc.run_tlc(os.path.join(tlc.SPEC, "tables", "Retry.tla"),
+                              os.path.join(tlc.SPEC, "tables", "Retry.cfg"), workers=1, timeout=600)
+    st = tlc.parse_stats(o)
+    items, bad = replay.parse_behaviours(o)
+    if rc != 0 or st is None or bad or len(items) != st["distinct"]:
+        out.machinery(f"Retry.tla failed rc={rc} bad={bad}: {o[-1200:]}")
+        return
+    out.coverage["states"] = out.coverage.get("states", 0) + st["distinct"]
+    out.coverage["transitions"] = out.coverage.get("transitions", 0) + st["generated"]
+    nb = 0
+    for it in items:
+        out.judged += 1
+        reset_global_state()
+        try:
+            r = retry.run_cell(it)
+        except Exception as ex:  # noqa: BLE001
+            r = ("exception", "none", f"{type(ex).__name__}: {str(ex)[:160]}")
+        if r is None:
+            continue
+        nb += 1
+        out.violation({"kind": "retry-table", "rerun": ["retry", "run_cell", [it]], "cell": it["cell"], "what": r[0],
+                       "admissible": r[1], "observed": str(r[2])},
+                      f"backward() asked again, cell {json.dumps(it['cell'])}: {r[0]}: admissible {r[1]}, MyGrad: {str(r[2])[:160]}")
+    reset_global_state()
+    out.coverage["retry_cells"] = len(items)
+    out.coverage["retry_cells_disagreeing"] = nb
+    out.coverage["traces_validated_against_impl"] = out.coverage.get("traces_validated_against_impl", 0) + len(items)
 
 
 def stage_recurrent(out: core.Outcome, what=("value", "vjp")):
